@@ -58,10 +58,20 @@ Theorem C08_declared_not_exceeded : forall code reason dated fs dv pieces accept
 Proof. exact declared_not_exceeded. Qed.
 Print Assumptions C08_declared_not_exceeded.
 Theorem C08_declared_short_is_error : forall code reason dated fs dv pieces accepted d, inputs_ok code reason fs dv ->
-  declared_chunked fs = false -> declared_length fs = Some d -> (N.of_nat PROBE_MAX < d)%N ->
+  declared_chunked fs = false -> declared_length fs = Some d ->
   (N.of_nat (length (concat pieces)) < d)%N ->
   is_ok (write_response code reason (user_headers dated fs) (date_line dv) pieces accepted) = false.
 Proof. exact declared_short_error. Qed.
+Print Assumptions C08_declared_short_is_error.
+(* ... and for a small declared length (at most PROBE_MAX: the body is collected before the head is written) nothing
+   at all is written *)
+Theorem C08_declared_short_is_error_small : forall code reason dated fs dv pieces accepted d, inputs_ok code reason fs dv ->
+  declared_chunked fs = false -> declared_length fs = Some d -> (d <= N.of_nat PROBE_MAX)%N ->
+  (N.of_nat (length (concat pieces)) < d)%N ->
+  is_ok (write_response code reason (user_headers dated fs) (date_line dv) pieces accepted) = false /\
+  out_of (write_response code reason (user_headers dated fs) (date_line dv) pieces accepted) = [].
+Proof. exact declared_short_error_small. Qed.
+Print Assumptions C08_declared_short_is_error_small.
 
 (* requests written by the client: the same body logic behind a request line *)
 Theorem C08_request : forall method uri dated fs dv pieces accepted,
@@ -75,6 +85,16 @@ Theorem C08_request : forall method uri dated fs dv pieces accepted,
     /\ framing_for fs (length (concat pieces)) framing.
 Proof. exact request_roundtrip. Qed.
 Print Assumptions C08_request.
+(* a reader shorter than the declared length is an error for requests too; nothing is written when the length is small *)
+Theorem C08_request_declared_short_is_error : forall method uri dated fs dv pieces accepted d,
+  wf_user_fields fs = true ->
+  declared_chunked fs = false -> declared_length fs = Some d ->
+  (N.of_nat (length (concat pieces)) < d)%N ->
+  is_ok (write_request method uri (user_headers dated fs) (date_line dv) pieces accepted) = false /\
+  ((d <= N.of_nat PROBE_MAX)%N ->
+   out_of (write_request method uri (user_headers dated fs) (date_line dv) pieces accepted) = []).
+Proof. exact request_declared_short_error. Qed.
+Print Assumptions C08_request_declared_short_is_error.
 
 Example C08_ex_inputs : inputs_ok 200 (bs "Fine") [(bs "Content-Type", bs "text/plain"); (bs "transfer-encoding", bs "chunked")] (bs "Thu, 01 Jan 1970 00:00:00 GMT").
 Proof. unfold inputs_ok. repeat split; try (vm_compute; reflexivity); vm_compute; discriminate. Qed.
@@ -192,3 +212,96 @@ Theorem C08_server_method_refuted : exists method uri dated fs dv pieces accepte
   server_receive (out_of (write_request method uri (user_headers dated fs) (date_line dv) pieces accepted)) = None.
 Proof. exact server_method_refuted. Qed.
 Print Assumptions C08_server_method_refuted.
+
+(* ---- "any header set": the round trip for ARBITRARY operation histories on the header collection (Spec/PrinterSpecGen.v,
+   Proofs/PrinterRoundGen.v).  [ops_ok]: names are non-empty tokens, values free of CR / LF, set lengths below 2^64.
+   [printable h]: the stored Transfer-Encoding fields are none, or exactly one whose value is `chunked` (any case, optional
+   whitespace).  The output is one correctly framed message EXACTLY when the collection is printable; outside it is finding F37. *)
+From KV Require Import Spec.HeaderStore Spec.PrinterSpecGen Proofs.PrinterRoundGen.
+
+Theorem C08_histories_coherent : forall dated ops, ops_ok ops = true -> coherent (hrun_from dated ops).
+Proof. exact hrun_coherent. Qed.
+
+Theorem C08_bytes_gen : forall code reason h dv body accepted,
+  status_ok code reason -> coherent h -> wf_date_value dv = true -> printable h = true ->
+  (N.of_nat (length body) < 2 ^ 64)%N ->
+  exists framing,
+    decode_msg (out_of (write_response_bytes code reason h (date_line dv) body accepted)) =
+      Some {| m_start := response_start code reason; m_fields := shown_fields_of h dv ++ framing; m_body := body; m_rest := [] |} /\
+    framing_for_gen h (length body) framing /\
+    exactly_one_framing (shown_fields_of h dv ++ framing) (length body) /\
+    framing = (if user_chunked h then [] else [(bs "content-length", dec_of (N.of_nat (length body)))]).
+Proof. exact bytes_roundtrip_gen. Qed.
+Print Assumptions C08_bytes_gen.
+
+Theorem C08_printable_iff : forall code reason h dv body accepted,
+  status_ok code reason -> coherent h -> wf_date_value dv = true -> (N.of_nat (length body) < 2 ^ 64)%N ->
+  ((exists m, decode_msg (out_of (write_response_bytes code reason h (date_line dv) body accepted)) = Some m) <->
+   printable h = true).
+Proof. exact bytes_printable_iff. Qed.
+Print Assumptions C08_printable_iff.
+
+Theorem C08_reader_gen : forall code reason h dv pieces accepted,
+  status_ok code reason -> coherent h -> wf_date_value dv = true -> printable h = true ->
+  (N.of_nat (length (concat pieces)) < 2 ^ 64)%N ->
+  user_chunked h = true \/ content_length h = None \/ content_length h = Some (N.of_nat (length (concat pieces))) ->
+  exists framing,
+    decode_msg (out_of (write_response code reason h (date_line dv) pieces accepted)) =
+      Some {| m_start := response_start code reason; m_fields := shown_fields_of h dv ++ framing; m_body := concat pieces; m_rest := [] |} /\
+    framing_for_gen h (length (concat pieces)) framing /\
+    exactly_one_framing (shown_fields_of h dv ++ framing) (length (concat pieces)) /\
+    is_ok (write_response code reason h (date_line dv) pieces accepted) = true.
+Proof. exact reader_roundtrip_gen. Qed.
+Print Assumptions C08_reader_gen.
+
+Theorem C08_request_gen : forall method uri h dv pieces accepted,
+  no_crlf method = true -> no_crlf uri = true -> coherent h -> wf_date_value dv = true -> printable h = true ->
+  (N.of_nat (length (concat pieces)) < 2 ^ 64)%N ->
+  user_chunked h = true \/ content_length h = None \/ content_length h = Some (N.of_nat (length (concat pieces))) ->
+  exists framing,
+    decode_msg (out_of (write_request method uri h (date_line dv) pieces accepted)) =
+      Some {| m_start := request_start method uri; m_fields := shown_fields_of h dv ++ framing; m_body := concat pieces; m_rest := [] |} /\
+    framing_for_gen h (length (concat pieces)) framing /\
+    exactly_one_framing (shown_fields_of h dv ++ framing) (length (concat pieces)).
+Proof. exact request_roundtrip_gen. Qed.
+
+Theorem C08_declared_not_exceeded_gen : forall code reason h dv pieces accepted d,
+  status_ok code reason -> coherent h -> wf_date_value dv = true -> printable h = true ->
+  user_chunked h = false -> content_length h = Some d -> (d <= N.of_nat (length (concat pieces)))%N ->
+  decode_msg (out_of (write_response code reason h (date_line dv) pieces accepted)) =
+    Some {| m_start := response_start code reason; m_fields := shown_fields_of h dv ++ [(bs "content-length", dec_of d)];
+            m_body := firstn (N.to_nat d) (concat pieces); m_rest := [] |}.
+Proof. exact declared_not_exceeded_gen. Qed.
+
+Theorem C08_declared_short_gen : forall code reason h date pieces accepted d,
+  Headers.chunked h = false -> content_length h = Some d -> (N.of_nat (length (concat pieces)) < d)%N ->
+  is_ok (write_response code reason h date pieces accepted) = false /\
+  ((d <= N.of_nat PROBE_MAX)%N -> out_of (write_response code reason h date pieces accepted) = []).
+Proof. exact declared_short_error_gen. Qed.
+
+(* whatever is done with Content-Length (several fields, invalid values, set / add / replace / remove in any order) the
+   framing is right; and a collection whose Transfer-Encoding comes from set_transfer_encoding_chunked only (any number of
+   calls: repaired finding F36) is printable *)
+Theorem C08_content_length_histories : forall code reason dated ops dv body accepted,
+  status_ok code reason -> ops_ok ops = true -> wf_date_value dv = true -> te_free ops = true ->
+  (N.of_nat (length body) < 2 ^ 64)%N ->
+  decode_msg (out_of (write_response_bytes code reason (hrun_from dated ops) (date_line dv) body accepted)) =
+    Some {| m_start := response_start code reason;
+            m_fields := shown_fields_gen (spec_stored ops) dated dv ++ [(bs "content-length", dec_of (N.of_nat (length body)))];
+            m_body := body; m_rest := [] |}.
+Proof. exact cl_histories_roundtrip. Qed.
+Theorem C08_set_chunked_printable : forall ops, te_by_set_only ops = true -> printable_st (spec_stored ops) = true.
+Proof. exact te_by_set_only_printable. Qed.
+Print Assumptions C08_content_length_histories.
+Print Assumptions C08_set_chunked_printable.
+
+(* the recorded finding F37: outside [printable] the output is NOT one correctly framed message (for every body, status and
+   entry point: PrinterRoundGen.bytes_unprintable, reader_unprintable, request_unprintable); the simplest witness *)
+Theorem C08_unprintable_refuted_F37 : exists ops body,
+  ops_ok ops = true /\ printable_st (spec_stored ops) = false /\
+  Witness.resp ops body = bs "HTTP/1.1 200 OK" ++ Witness.crlf ++ bs "Transfer-Encoding: gzip" ++ Witness.crlf ++
+                  bs "content-length: 2" ++ Witness.crlf ++ Witness.crlf ++ bs "hi" /\
+  parsed_fields (Witness.resp ops body) = Some [(Witness.TE, bs "gzip"); (bs "content-length", bs "2")] /\
+  decode_msg (Witness.resp ops body) = None.
+Proof. exact Witness.te_gzip_refuted. Qed.
+Print Assumptions C08_unprintable_refuted_F37.
